@@ -1172,6 +1172,21 @@ class SD:
                         eqs.append((cc[2], ("slice", ndl, None, None)))
                     else:
                         eqs = []
+                elif cc[0] == "call" and cc[1] in (("ext", "all"), ("ext", "any")) and len(cc[2]) == 1 and cc[2][0][0] == "comp" \
+                        and cc[2][0][2][0] == "cmp" and cc[2][0][2][1] in ("==", "!=") and {cc[2][0][2][2][0], cc[2][0][2][3][0]} <= {"item"} \
+                        and len(cc[2][0][3]) == 1 and not cc[2][0][3][0][2]:
+                    # all(h[f(j)] == n[g(j)] for j in range(..)) / not any(h[f(j)] != n[g(j)] for j in range(..)): the element-wise
+                    # comparison loop written as a reduction; same obligations as the explicit loop
+                    el = cc[2][0][2]
+                    sides = [el[2], el[3]]
+                    hs = [x for x in sides if x[1] == hay]
+                    ns = [x for x in sides if x[1] == ndl]
+                    all_equal = (cc[1][1] == "all" and el[1] == "==" and vv) or (cc[1][1] == "any" and el[1] == "!=" and not vv)
+                    if len(hs) == 1 and len(ns) == 1:
+                        if all_equal:
+                            eqs.append((hs[0], ns[0]))
+                        else:
+                            eqs = []
                 elif cc[0] == "call" and cc[1] == ("ext", "all") and len(cc[2]) == 1 and cc[2][0][0] == "comp" and vv:
                     # all(a == b for a, b in zip(haystack[i:...], needle)): zip stops at the shorter operand, so the
                     # comparison covers the whole run only if at least len(needle) elements remain after i
